@@ -42,3 +42,36 @@ def untraced(fn, *args):
         with NoTracing():
             return fn(*args)
     return fn(*args)
+
+
+def isolated(fn, *args):
+    """Run fn(*args) in a forked child so that process-wide state it touches (class-level caches, singletons) cannot
+    leak from one explored path into the next: every path starts from the same process image, and a counterexample
+    replays in a fresh process.  All args must be concrete.  Exceptions are re-raised in the parent as RuntimeError."""
+    import os
+    import pickle
+
+    def run():
+        r, w = os.pipe()
+        pid = os.fork()
+        if pid == 0:
+            try:
+                os.close(r)
+                try:
+                    payload = ("ok", fn(*args))
+                except BaseException as e:  # noqa - report everything to the parent
+                    payload = ("exc", "%s: %s" % (type(e).__name__, e))
+                with os.fdopen(w, "wb") as f:
+                    pickle.dump(payload, f)
+            finally:
+                os._exit(0)
+        os.close(w)
+        with os.fdopen(r, "rb") as f:
+            data = f.read()
+        os.waitpid(pid, 0)
+        kind, value = pickle.loads(data) if data else ("exc", "child died")
+        if kind == "exc":
+            raise RuntimeError("in isolated child: " + value)
+        return value
+
+    return untraced(run)
